@@ -30,6 +30,12 @@ pub enum Op {
     /// `write_vectored` with at most one non-empty buffer (where every conforming implementation must agree with
     /// the std cursor: nothing to write, or exactly one buffer to write)
     WriteV(Vec<Vec<u8>>),
+    /// `read_exact`, replayed only while the position is within the data: there the provided method (all that the
+    /// aligned cursor has on the pinned tree) and std's specialisation agree on result and final position (a
+    /// failed call leaves both at the end of the data); beyond the end std's specialisation moves the position
+    /// *back* to the end, which no `Read::read_exact` contract asks for. The buffer is compared on success only
+    /// (its contents are unspecified after a failure).
+    ReadExact(usize),
 }
 
 /// positions at which a write is still replayed on both cursors (keeps the std model away from
@@ -67,6 +73,7 @@ pub fn op_strategy() -> impl Strategy<Value = Op> {
         3 => prop_oneof![6 => prop::collection::vec(any::<u8>(), 1..48), 1 => prop::collection::vec(any::<u8>(), 48..400)].prop_map(Op::WriteAll),
         1 => Just(Op::Flush),
         4 => (0usize..48).prop_map(Op::Read),
+        2 => prop_oneof![3 => 0usize..48, 1 => 48usize..600].prop_map(Op::ReadExact),
         2 => pos_strategy().prop_map(Op::SeekStart),
         2 => off_strategy().prop_map(Op::SeekCurrent),
         2 => off_strategy().prop_map(Op::SeekEnd),
@@ -133,6 +140,19 @@ pub fn run_history<A: Alignment>(ops: &[Op], with_capacity: Option<usize>) -> Re
                 let rs = io_res(s.read(&mut bs));
                 if ra != rs || ba != bs {
                     return Err(format!("{}: read returned {:?} / {:02x?}, std cursor {:?} / {:02x?}", step, ra, &ba[..ba.len().min(8)], rs, &bs[..bs.len().min(8)]));
+                }
+            }
+            Op::ReadExact(n) => {
+                if s.position() > s.get_ref().len() as u64 {
+                    skipped += 1;
+                    continue;
+                }
+                let mut ba = vec![0xAAu8; *n];
+                let mut bs = vec![0xAAu8; *n];
+                let ra = guard(|| io_res(a.read_exact(&mut ba))).map_err(|p| format!("{}: AlignedCursor panicked: {}", step, p))?;
+                let rs = io_res(s.read_exact(&mut bs));
+                if ra != rs || (rs.is_ok() && ba != bs) {
+                    return Err(format!("{}: read_exact returned {:?} / {:02x?}, std cursor {:?} / {:02x?}", step, ra, &ba[..ba.len().min(8)], rs, &bs[..bs.len().min(8)]));
                 }
             }
             Op::SeekStart(_) | Op::SeekCurrent(_) | Op::SeekEnd(_) => {
@@ -247,6 +267,7 @@ pub fn ops_to_json(ops: &[Op]) -> Value {
             Op::Write(d) => json!({"Write": d}),
             Op::WriteAll(d) => json!({"WriteAll": d}),
             Op::Read(n) => json!({"Read": n}),
+            Op::ReadExact(n) => json!({"ReadExact": n}),
             Op::SeekStart(p) => json!({"SeekStart": p.to_string()}),
             Op::SeekCurrent(p) => json!({"SeekCurrent": p.to_string()}),
             Op::SeekEnd(p) => json!({"SeekEnd": p.to_string()}),
@@ -278,6 +299,7 @@ pub fn ops_from_json(v: &Value) -> Vec<Op> {
                 "Write" => Op::Write(bytes()),
                 "WriteAll" => Op::WriteAll(bytes()),
                 "Read" => Op::Read(val.as_u64().unwrap_or(0) as usize),
+                "ReadExact" => Op::ReadExact(val.as_u64().unwrap_or(0) as usize),
                 "SeekStart" => Op::SeekStart(num().parse().unwrap_or(0)),
                 "SeekCurrent" => Op::SeekCurrent(num().parse().unwrap_or(0)),
                 "SeekEnd" => Op::SeekEnd(num().parse().unwrap_or(0)),
